@@ -29,7 +29,8 @@ def main():
     import queue
     args = [a for a in sys.argv[1:] if not a.startswith('--')]
     jobs = 4
-    seeds = args or sorted(os.listdir(os.path.join(VERIF, 'seeded')))
+    SUB = 'refactors' if '--refactors' in sys.argv else 'seeded'
+    seeds = args or sorted(os.listdir(os.path.join(VERIF, SUB)))
     workers = ['/tmp/confirm%d' % i for i in range(1, jobs + 1)]
     for w in workers:
         assert subprocess.run(['git', '-C', w, 'status', '--porcelain', '--untracked-files=no'], capture_output=True, text=True).stdout.strip() == '', 'worker dirty ' + w
@@ -52,7 +53,7 @@ def main():
     res = {}
 
     def run(s):
-        pd = os.path.join(VERIF, 'seeded', s, 'patch.diff')
+        pd = os.path.join(VERIF, SUB, s, 'patch.diff')
         w = free.get()
         try:
             a = subprocess.run(['git', '-C', w, 'apply', pd], capture_output=True, text=True)
@@ -66,7 +67,7 @@ def main():
             return s, got, None, time.time() - t0
         finally:
             free.put(w)
-    todo = [s for s in seeds if os.path.exists(os.path.join(VERIF, 'seeded', s, 'patch.diff'))]
+    todo = [s for s in seeds if os.path.exists(os.path.join(VERIF, SUB, s, 'patch.diff'))]
     with cf.ThreadPoolExecutor(max_workers=jobs) as ex:
         for s, got, err, dt in ex.map(run, todo):
             if err:
@@ -81,7 +82,7 @@ def main():
                 for k, d in v.items():
                     if k not in base.get(pid, {}):
                         new.setdefault(pid, {})[k] = d
-            print('%-8s %s  own-property:%s  new violations in: %s  (%.0fs)' % (s, 'CAUGHT' if new else 'MISSED', 'yes' if prop in new else 'no', sorted(new), dt), flush=True)
+            print('%-8s %s  own-property:%s  new violations in: %s  (%.0fs)' % (s, ('FALSE-ALARM' if new else 'silent') if SUB == 'refactors' else ('CAUGHT' if new else 'MISSED'), 'yes' if prop in new else 'no', sorted(new), dt), flush=True)
             shown = set()
             for pid, v in new.items():
                 for k, d in list(v.items())[:4]:
@@ -91,7 +92,7 @@ def main():
                     print('           %s %s :: %s' % (pid, k, d[:150].replace(chr(10), ' ')), flush=True)
             res[s] = new
     os.makedirs(os.path.join(VERIF, '.cache'), exist_ok=True)
-    json.dump(res, open(os.path.join(VERIF, '.cache', 'seedcheck.json'), 'w'), indent=1)
+    json.dump(res, open(os.path.join(VERIF, '.cache', SUB + 'check.json'), 'w'), indent=1)
 
 
 if __name__ == '__main__':
